@@ -60,6 +60,8 @@ DOMAINS = [
     dict(name="bool-sparse", tu="domall3", rel=True),
     dict(name="pow-itv", tu="domall3", rel=False),
     dict(name="pow-zones", tu="domall3", rel=True),
+    # only the boolean sub-stream of C03/C04: powerset forwarding the boolean operations to disjuncts that implement them
+    dict(name="pow-bool", tu="domall3", rel=False, bool_only=True),
 ]
 EXCLUDED = {
     "wrapped_interval_domain": "machine-integer semantics (wrap-around at the bit width): not comparable with the mathematical-integer oracle on this fragment; covered by C13",
@@ -83,7 +85,7 @@ def sizes(tier, prop):
 
 
 BOOL_DOMAINS = ("bool-itv", "bool-sparse")          # flat_boolean_numerical_domain: reduction in both directions
-BOOL_FORWARDING = ("uf", "pow-itv", "pow-zones", "gen-zones", "ref-zones", "vpart")   # terms over booleans / forwarding wrappers
+BOOL_FORWARDING = ("uf", "pow-bool", "pow-itv", "pow-zones", "gen-zones", "ref-zones", "vpart")   # terms over booleans / forwarding wrappers
 
 
 def bool_sizes(tier, prop, dom):
@@ -91,6 +93,8 @@ def bool_sizes(tier, prop, dom):
     q = tier == "quick"
     if dom["name"] in BOOL_DOMAINS:
         return 450 if q else 12000
+    if dom["name"] == "pow-bool":
+        return 150 if q else 4000
     if dom["name"] in BOOL_FORWARDING:
         return 60 if q else 1500
     return 25 if q else 600
@@ -347,7 +351,9 @@ def run_domain(prop, tier, seed, dom, exe, n, known, shrink_ok, base_answers):
     # corpus (minimal histories of past findings) first, then the structured random stream
     lines = [X.ascending_widen(l) if dom.get("asc_widen") else l for l in X.CORPUS]
     lines += X.histories(seed + 1000 + zlib_id(prop), prop, n, **hopts)
-    if tier != "quick":
+    if dom.get("bool_only"):
+        lines = list(X.CORPUS)
+    if tier != "quick" and not dom.get("bool_only"):
         # constants up to 2^62: arbitrary precision in the non-relational domains; the graph
         # domains with DefaultParams compute on unchecked int64 weights (known finding),
         # SafeInt64DefaultParams stops with CRAB_ERROR on overflow
@@ -443,6 +449,7 @@ def chain_oracle_k(line, ans, k):
 def search(rep, tier, seed, prop, only=None, n=None, shrink_ok=True):
     t0 = time.time()
     doms = [d for d in DOMAINS if only is None or d["name"] in only]
+    doms = [d for d in doms if not d.get("bool_only") or prop in ("C03", "C04")]
     tus = sorted(set(d["tu"] for d in doms))
     built = vlib.build_harnesses(tus)
     known = [k for k in vlib.load_known().get("findings", []) if str(k.get("stream", "")).startswith("search-")]
